@@ -1,4 +1,5 @@
 import Sentinel.Model.Bucket
+import Sentinel.Model.Throttle
 /-!
 # M-FLOW (reject mode) — QPS flow rules with the Direct calculator and the Reject checker (core Lean only)
 
@@ -49,11 +50,18 @@ def Thr.exceeds (T : Thr) (N : Nat) : Bool :=
 
 /-! ## rules and the statistic bound to a rule -/
 
+/-- `ControlBehavior`: `Reject`, or `Throttling` with `MaxQueueingTimeMs` (both with the Direct calculator) -/
+inductive Kind where
+  | reject
+  | throttle (maxQ : Nat)
+deriving Repr, DecidableEq
+
 structure Rule where
   res : Nat                    -- Resource
   thr : Thr                    -- Threshold
   iv  : Nat                    -- StatIntervalInMs
   ref : Option Nat := none     -- `some r`: RelationStrategy = AssociatedResource, RefResource = r
+  kind : Kind := .reject       -- ControlBehavior (+ MaxQueueingTimeMs)
 deriving Repr, DecidableEq
 
 /-- `IsValidRule` restricted to the fields of a Direct/Reject rule -/
@@ -91,6 +99,7 @@ structure Ctrl where
   rule : Rule
   geom : Geom
   own : Arr Nat          -- `boundStat.writeOnlyMetric` (meaningful only for `geom = own ..`)
+  last : Int := 0        -- `ThrottlingChecker.lastPassedTime` in ns (throttling controllers only)
 deriving Repr
 
 /-- the resource whose **node** the rule is about: `RefResource` for an associated rule -/
@@ -318,5 +327,229 @@ def refRunSched (srcOf : RuleInfo → Nat) (cs : List RuleInfo) (H : List Arriva
     (ths : List Thread) : List Nat → List Arrival × List Thread
   | [] => (H, ths)
   | i :: r => let (H1, t1) := refStepThread srcOf cs H now ths i; refRunSched srcOf cs H1 now t1 r
+
+/-! ## the general flow slot: throttling rules in the chain, time in nanoseconds, reloading
+
+Everything above is the reject-only core (one `LoadRules`, time in ms) about which the window theorems are
+stated. The definitions below are what the driver executes; on rule lists without throttling rules and
+for a first load they coincide with the core (`Sentinel.C02.loadG_eq_load`, `entryG_eq_entry`).
+
+* A throttling controller has no statistic (`nopStat`); its state is `lastPassedTime`. Its check is
+  `Sentinel.Throttle.doCheck` (C10's model of `ThrottlingChecker.DoCheck`); the request class is computed
+  **exactly**: `intervalNs = ⌈b · statIntervalNs / T⌉` as a rational ceiling. The code computes it in float64
+  (`math.Ceil(float64(b)/T*float64(statIntervalNs))`), which is the same number whenever `T` is a power of
+  two and `b · statIntervalNs < 2^53` — the generator keeps throttling thresholds in that set.
+* `Slot.Check` walks the resource's controllers in order; a positive wait is slept (`util.Sleep`, the virtual
+  clock advances) before the next controller is asked, so later reject rules read their window at the
+  advanced time, and the statistic slots record at the advanced time.
+* `reloadG` = `buildResourceTrafficShapingController` for every resource: first equal old controller
+  (`isEqualsTo`) is moved over unchanged, else the first stat-reusable one donates its statistic, else
+  `generateStatFor`. -/
+
+def nsPerMs : Nat := 1000000
+
+/-- request class of `ThrottlingChecker.DoCheck` for batch `b` (exact arithmetic) -/
+def throttleReq (T : Thr) (ivMs b : Nat) : Throttle.Req :=
+  if b = 0 then .zero else
+  match T with
+  | .unbounded => .norm 0
+  | .invalid => .excess
+  | .frac num den =>
+    if num = 0 then .excess                       -- threshold <= 0
+    else if num < b * den then .excess            -- float64(b) > threshold
+    else
+      let statNs := (if ivMs = 0 then 1000 else ivMs) * nsPerMs
+      .norm (((b * statNs * den + num - 1) / num : Nat) : Int)
+
+/-- `float64(b) > threshold` blocks without naming a rule (`NewTokenResultBlocked`) -/
+def throttleAnon (T : Thr) (b : Nat) : Bool :=
+  match T with
+  | .frac num den => b ≠ 0 && num ≠ 0 && decide (num < b * den)
+  | _ => false
+
+/-- what a block reports when the result carries no rule -/
+def noRule : Nat := 1000000000
+
+/-- what the chain walk needs from a controller (the model's `Ctrl`, or the reference's `RCtrl`) -/
+structure ChainOps (α : Type) where
+  rule : α → Rule
+  idx : α → Nat
+  last : α → Int
+  setLast : α → Int → α
+  /-- reject rule: does it block batch `b` at time `ms`? -/
+  blocks : α → Nat → Nat → Bool
+
+/-- `Slot.Check` at time `t` (ns): updated controllers, the time after the sleeps, the decision -/
+def chainG {α : Type} (O : ChainOps α) (res : Nat) (b : Nat) : List α → Nat → List α × Nat × Option Nat
+  | [], t => ([], t, none)
+  | c :: r, t =>
+    if (O.rule c).res ≠ res then
+      let x := chainG O res b r t; (c :: x.1, x.2.1, x.2.2)
+    else match (O.rule c).kind with
+      | .reject =>
+        if O.blocks c (t / nsPerMs) b then (c :: r, t, some (O.idx c))
+        else let x := chainG O res b r t; (c :: x.1, x.2.1, x.2.2)
+      | .throttle maxQ =>
+        match Throttle.doCheck ((maxQ * nsPerMs : Nat) : Int) (O.last c) (t : Int) (throttleReq (O.rule c).thr (O.rule c).iv b) with
+        | (l, .block) => (O.setLast c l :: r, t, some (if throttleAnon (O.rule c).thr b then noRule else O.idx c))
+        | (l, .pass) => let x := chainG O res b r t; (O.setLast c l :: x.1, x.2.1, x.2.2)
+        | (l, .wait w) => let x := chainG O res b r (t + w.toNat); (O.setLast c l :: x.1, x.2.1, x.2.2)
+
+def modelOps (ns : Nodes) : ChainOps Ctrl :=
+  { rule := (·.rule), idx := (·.idx), last := (·.last), setLast := fun c l => { c with last := l },
+    blocks := fun c ms b => c.blocks ns ms b }
+
+/-- prepare slot + rule-check slots at time `t` (ns) -/
+def checkPhaseG (s : St) (res t b : Nat) : St × Nat × Option Nat :=
+  let ns := ensure s.nodes res (t / nsPerMs)
+  let x := chainG (modelOps ns) res b s.ctrls t
+  ({ nodes := ns, ctrls := x.1 }, x.2.1, x.2.2)
+
+/-- `api.Entry` + `Exit`: new state, the clock afterwards, the decision -/
+def entryG (s : St) (res t b : Nat) : St × Nat × Option Nat :=
+  let x := checkPhaseG s res t b
+  (statPhase x.1 res (x.2.1 / nsPerMs) b x.2.2, x.2.1, x.2.2)
+
+/-- `util.Float64Equals` on thresholds: `|x - y| < 1e-8` (NaN / Inf are equal to nothing) -/
+def thrEq : Thr → Thr → Bool
+  | .frac n1 d1, .frac n2 d2 => decide ((n1 * d2 - n2 * d1 + (n2 * d1 - n1 * d2)) * 100000000 < d1 * d2)
+  | _, _ => false
+
+/-- `old.isEqualsTo(new)` -/
+def Rule.eqv (o n : Rule) : Bool :=
+  o.res = n.res && o.ref = n.ref && o.iv = n.iv && o.kind = n.kind && thrEq o.thr n.thr
+
+/-- `old.isStatReusable(new)` (a Direct+Throttling rule needs no statistic) -/
+def Rule.statReusable (o n : Rule) : Bool :=
+  o.res = n.res && o.ref = n.ref && o.iv = n.iv && o.kind = .reject && n.kind = .reject
+
+/-- `calculateReuseIndexFor` over the old controllers' rules: `(equalIdx, reuseStatIdx)` -/
+def reuseIdx (r : Rule) : List Rule → Nat → Option Nat → Option Nat × Option Nat
+  | [], _, reuse => (none, reuse)
+  | o :: os, i, reuse =>
+    if o.eqv r then (some i, reuse)
+    else if o.statReusable r && reuse.isNone then reuseIdx r os (i + 1) (some i)
+    else reuseIdx r os (i + 1) reuse
+
+/-- a brand-new controller for a valid rule (`none`: the generator failed) -/
+def mkCtrlG (idx : Nat) (r : Rule) (now : Nat) : Option Ctrl :=
+  match r.kind with
+  | .reject => mkCtrl idx r now
+  | .throttle _ => some { idx := idx, rule := r, geom := .bad, own := { n := 1, L := 1, slots := [] } }
+
+def reloadFrom (pool : List Ctrl) (acc : St) (now : Nat) : Nat → List Rule → St
+  | _, [] => acc
+  | i, r :: rs =>
+    if r.valid then
+      match reuseIdx r (pool.map (·.rule)) 0 none with
+      | (some e, _) =>
+        match pool[e]? with
+        | some c => reloadFrom (pool.eraseIdx e) { acc with ctrls := acc.ctrls ++ [c] } now (i + 1) rs
+        | none => reloadFrom pool acc now (i + 1) rs          -- unreachable
+      | (none, some j) =>
+        match pool[j]? with
+        | some c => reloadFrom (pool.eraseIdx j)
+            { acc with ctrls := acc.ctrls ++ [{ idx := i, rule := r, geom := c.geom, own := c.own }] } now (i + 1) rs
+        | none => reloadFrom pool acc now (i + 1) rs          -- unreachable
+      | (none, none) =>
+        let ns := match r.kind with | .reject => ensure acc.nodes r.src now | _ => acc.nodes
+        match mkCtrlG i r now with
+        | some c => reloadFrom pool { nodes := ns, ctrls := acc.ctrls ++ [c] } now (i + 1) rs
+        | none => reloadFrom pool { acc with nodes := ns } now (i + 1) rs
+    else reloadFrom pool acc now (i + 1) rs
+
+/-- `flow.LoadRules(rules)` at time `now` (ms) on the state `s`; the rules get the ids `base, base+1, …` -/
+def reloadG (s : St) (rules : List Rule) (now base : Nat) : St :=
+  reloadFrom s.ctrls { nodes := s.nodes, ctrls := [] } now base rules
+
+/-! ### reference with throttling rules and reloads (no arrays) -/
+
+/-- reference controller: the rule in force, since which admitted arrival its own window counts
+    (`since` = length of the admitted history when an independent window was created), `lastPassedTime` -/
+structure RCtrl where
+  info : RuleInfo
+  since : Nat := 0
+  last : Int := 0
+deriving Repr
+
+def RCtrl.tokens (srcOf : RuleInfo → Nat) (H : List Arrival) (c : RCtrl) (ms : Nat) : Nat :=
+  match c.info.geom with
+  | .own _ _ => windowTokens (H.drop c.since) (srcOf c.info) c.info.L c.info.Iv ms
+  | _ => windowTokens H (srcOf c.info) c.info.L c.info.Iv ms
+
+def refOps (srcOf : RuleInfo → Nat) (H : List Arrival) : ChainOps RCtrl :=
+  { rule := (·.info.rule), idx := (·.info.idx), last := (·.last), setLast := fun c l => { c with last := l },
+    blocks := fun c ms b => c.info.rule.thr.exceeds (c.tokens srcOf H ms + b) }
+
+structure RSt where
+  ctrls : List RCtrl := []
+  H : List Arrival := []
+deriving Repr
+
+/-- reference `api.Entry`: the arrival is recorded at the time after the sleeps -/
+def refEntryG (srcOf : RuleInfo → Nat) (s : RSt) (res t b : Nat) : RSt × Nat × Option Nat :=
+  let x := chainG (refOps srcOf s.H) res b s.ctrls t
+  ({ ctrls := x.1, H := if x.2.2.isNone && x.2.1 / nsPerMs != 0 then s.H ++ [{ t := x.2.1 / nsPerMs, res := res, b := b }] else s.H },
+   x.2.1, x.2.2)
+
+def refReloadFrom (pool : List RCtrl) (acc : List RCtrl) (hlen : Nat) : Nat → List Rule → List RCtrl
+  | _, [] => acc
+  | i, r :: rs =>
+    if r.valid then
+      match reuseIdx r (pool.map (·.info.rule)) 0 none with
+      | (some e, _) =>
+        match pool[e]? with
+        | some c => refReloadFrom (pool.eraseIdx e) (acc ++ [c]) hlen (i + 1) rs
+        | none => refReloadFrom pool acc hlen (i + 1) rs
+      | (none, some j) =>
+        match pool[j]? with
+        | some c => refReloadFrom (pool.eraseIdx j)
+            (acc ++ [{ info := { idx := i, rule := r, geom := c.info.geom }, since := c.since }]) hlen (i + 1) rs
+        | none => refReloadFrom pool acc hlen (i + 1) rs
+      | (none, none) =>
+        match r.kind with
+        | .throttle _ => refReloadFrom pool (acc ++ [{ info := { idx := i, rule := r, geom := .bad } }]) hlen (i + 1) rs
+        | .reject =>
+          match geomFor r.iv with
+          | .bad => refReloadFrom pool acc hlen (i + 1) rs
+          | g => refReloadFrom pool (acc ++ [{ info := { idx := i, rule := r, geom := g }, since := hlen }]) hlen (i + 1) rs
+    else refReloadFrom pool acc hlen (i + 1) rs
+
+def refReloadG (s : RSt) (rules : List Rule) (base : Nat) : RSt :=
+  { s with ctrls := refReloadFrom s.ctrls [] s.H.length base rules }
+
+/-! ### small steps with the general chain (the clock is shared and advanced by sleeps) -/
+
+def stepThreadG (s : St) (t : Nat) (ths : List Thread) (i : Nat) : St × Nat × List Thread :=
+  match ths[i]? with
+  | none => (s, t, ths)
+  | some th =>
+    match th.st with
+    | none =>
+      let x := checkPhaseG s th.res t th.b
+      (x.1, x.2.1, ths.set i { th with st := some (x.2.2, false) })
+    | some (d, false) => (statPhase s th.res (t / nsPerMs) th.b d, t, ths.set i { th with st := some (d, true) })
+    | some (_, true) => (s, t, ths)
+
+def runSchedG (s : St) (t : Nat) (ths : List Thread) : List Nat → St × Nat × List Thread
+  | [] => (s, t, ths)
+  | i :: r => let x := stepThreadG s t ths i; runSchedG x.1 x.2.1 x.2.2 r
+
+def refStepThreadG (srcOf : RuleInfo → Nat) (s : RSt) (t : Nat) (ths : List Thread) (i : Nat) : RSt × Nat × List Thread :=
+  match ths[i]? with
+  | none => (s, t, ths)
+  | some th =>
+    match th.st with
+    | none =>
+      let x := chainG (refOps srcOf s.H) th.res th.b s.ctrls t
+      ({ s with ctrls := x.1 }, x.2.1, ths.set i { th with st := some (x.2.2, false) })
+    | some (d, false) =>
+      ({ s with H := if d.isNone && t / nsPerMs != 0 then s.H ++ [{ t := t / nsPerMs, res := th.res, b := th.b }] else s.H }, t,
+        ths.set i { th with st := some (d, true) })
+    | some (_, true) => (s, t, ths)
+
+def refRunSchedG (srcOf : RuleInfo → Nat) (s : RSt) (t : Nat) (ths : List Thread) : List Nat → RSt × Nat × List Thread
+  | [] => (s, t, ths)
+  | i :: r => let x := refStepThreadG srcOf s t ths i; refRunSchedG srcOf x.1 x.2.1 x.2.2 r
 
 end Sentinel.FlowReject
